@@ -13,6 +13,7 @@ mod registry;
 mod render;
 mod replay;
 mod special;
+mod transparent;
 
 use serde_json::json;
 
@@ -164,6 +165,17 @@ fn main() {
         }
         "derivops" => {
             match derivops::run(args.get(2).expect("derivops <file>")) {
+                Ok(v) => println!("{v}"),
+                Err(e) => {
+                    eprintln!("tool error: {e}");
+                    std::process::exit(2);
+                }
+            }
+        }
+        "transparent" => {
+            let seed: u64 = arg(&args, "--seed").and_then(|x| x.parse().ok()).unwrap_or(1);
+            let samples: usize = arg(&args, "--samples").and_then(|x| x.parse().ok()).unwrap_or(20);
+            match transparent::run(args.get(2).expect("transparent <file>"), seed, samples) {
                 Ok(v) => println!("{v}"),
                 Err(e) => {
                     eprintln!("tool error: {e}");
